@@ -119,6 +119,38 @@ fn scenario(name: &str, n: usize) -> serde_json::Value {
                 }
             }
         },
+        "ser_fail_att" => {
+            // a send that fails while the value is being serialised, after endpoints and a region were already embedded;
+            // then a decode that fails before / after the attachments of the received message were claimed
+            struct Refuses;
+            impl serde::Serialize for Refuses {
+                fn serialize<S: serde::Serializer>(&self, _s: S) -> Result<S::Ok, S::Error> {
+                    Err(serde::ser::Error::custom("refused"))
+                }
+            }
+            impl<'de> serde::Deserialize<'de> for Refuses {
+                fn deserialize<D: serde::Deserializer<'de>>(_d: D) -> Result<Self, D::Error> {
+                    Ok(Refuses)
+                }
+            }
+            for _ in 0..n {
+                let (tx, _rx) = ipc::channel::<(IpcSender<u32>, ipc::IpcReceiver<u32>, IpcSharedMemory, Refuses)>().unwrap();
+                let (a, _ar) = ipc::channel::<u32>().unwrap();
+                let (_b, br) = ipc::channel::<u32>().unwrap();
+                if tx.send((a, br, IpcSharedMemory::from_bytes(b"0123456789"), Refuses)).is_ok() {
+                    notes.push("a send whose serialisation failed reported success".into());
+                }
+                // decode failure: (bool, sender, receiver, region) receives a first byte that is not a bool
+                let (tx2, rx2) = ipc::channel::<(u8, IpcSender<u32>, ipc::IpcReceiver<u32>, IpcSharedMemory)>().unwrap();
+                let (c, _cr) = ipc::channel::<u32>().unwrap();
+                let (_d, dr) = ipc::channel::<u32>().unwrap();
+                tx2.send((7, c, dr, IpcSharedMemory::from_bytes(b"abc"))).unwrap();
+                let rx2 = rx2.to_opaque().to::<(bool, IpcSender<u32>, ipc::IpcReceiver<u32>, IpcSharedMemory)>();
+                if rx2.try_recv().is_ok() {
+                    notes.push("7 decoded as a bool".into());
+                }
+            }
+        },
         "undecoded_drop" => {
             for _ in 0..n {
                 let (tx, rx) = ipc::channel::<(IpcSender<u32>, ipc::IpcReceiver<u32>)>().unwrap();
@@ -202,6 +234,7 @@ pub fn run() {
                 let name = a["name"].clone();
                 let n: usize = a.get("n").map(|s| s.parse().unwrap()).unwrap_or(10);
                 // warm-up run, so that lazily created process-wide state (router threads etc.) does not count
+                let (fc, mc) = (fd_targets(), shm_mappings());
                 let _ = scenario(&name, 1);
                 let (f0, m0, t0) = (fd_targets(), shm_mappings(), tmp_entries());
                 mark(&format!("scen {}", name));
@@ -211,7 +244,8 @@ pub fn run() {
                 println!(
                     "{}",
                     json!({"kind":"scen","name":name,"n":n,"fds_before":f0.len(),"fds_after":f1.len(),"maps_before":m0,"maps_after":m1,
-                           "tmp_before":t0,"tmp_after":t1,"notes":notes,
+                           "tmp_before":t0,"tmp_after":t1,"notes":notes,"fds_cold":fc.len(),"maps_cold":mc,
+                           "warmup_fds": f0.iter().filter(|x| !fc.contains(x)).map(|x| format!("{}:{}", x.0, x.1)).collect::<Vec<_>>(),
                            "new_fds": f1.iter().filter(|x| !f0.contains(x)).map(|x| format!("{}:{}", x.0, x.1)).collect::<Vec<_>>()})
                 );
             },
